@@ -1,7 +1,21 @@
 ------------------------------ MODULE MC_Links ------------------------------
+(* Links + the state-graph dump for replay (see MC_ByteChannel): every      *)
+(* transition once, with the inputs of the call and the outputs / snapshots *)
+(* M expects (lastAct', hidden from the VIEW).  States are printed as a     *)
+(* compact injective key of the VIEW.                                       *)
 EXTENDS Links, Json
-\* State-graph dump for replay (see MC_ByteChannel): every transition once, with the inputs of
-\* the call and the outputs / snapshots M expects (lastAct, hidden by the VIEW).
-EdgeDump == PrintT(<<"EDGE", ToJson([s |-> View, a |-> lastAct', t |-> View'])>>)
-InitDump == (lastAct.k = "init") => PrintT(<<"INIT", ToJson(View)>>)
+
+LaneCode(l) == IF lanes[l] = "new" THEN 0 ELSE IF lanes[l] = "up" THEN 1 ELSE 2
+Key == <<[l \in Lanes |-> IF fwd[l].here THEN 1 + B2I(fwd[l].rep) + 2 * Mask(fwd[l].rem, NR) ELSE 0],
+         [r \in Remotes |-> IF bwd[r].here THEN 1 + Mask(bwd[r].lanes, NL) ELSE 0],
+         total, lc, alc,
+         Mask({l \in Lanes : rdr[l]}, NL),
+         [l \in Lanes |-> LaneCode(l)],
+         Mask(att, NR), Mask(closed, NR), B2I(stopped),
+         [l \in Lanes |-> Mask(LinkedOf(linked, l), NR)],
+         Mask(gone, NL), Mask(lost, NL),
+         [l \in Lanes |-> Mask(LinkedOf(ph, l), NR)]>>
+
+EdgeDump == PrintT(<<"EDGE", ToJson([s |-> Key, a |-> lastAct', t |-> Key'])>>)
+InitDump == (lastAct.k = "init") => PrintT(<<"INIT", ToJson(Key)>>)
 =============================================================================
